@@ -141,6 +141,9 @@ type Result struct {
 	AcctMeta map[string]map[string]string
 	Vis      Sheet // balances visible after the last statement
 	Env      map[string]Val
+	// Reads: (account, asset) pairs whose balance the execution consulted while something
+	// was still needed (or in send-all mode), or through balance()/overdraft()
+	Reads map[[2]string]bool
 }
 
 type state struct {
@@ -152,6 +155,7 @@ type state struct {
 	draws []Part
 	recv  []Part
 	stmt  int
+	reads map[[2]string]bool
 }
 
 func fail(class, f string, a ...any) *Err { return &Err{Class: class, Msg: fmt.Sprintf(f, a...)} }
@@ -411,6 +415,9 @@ func (st *state) draw(s *gen.Src, need *big.Int) (*big.Int, *Err) {
 		if a.S == "world" || unbounded {
 			give = new(big.Int).Set(need)
 		} else {
+			if need.Sign() > 0 && st.reads != nil {
+				st.reads[[2]string{a.S, st.asset}] = true
+			}
 			give = minB(need, st.avail(a.S, grant))
 		}
 		st.take(a.S, give)
@@ -476,6 +483,9 @@ func (st *state) drawAll(s *gen.Src) (*big.Int, *Err) {
 		}
 		if a.S == "world" {
 			return nil, fail(EUnboundedInSendAll, "world")
+		}
+		if st.reads != nil {
+			st.reads[[2]string{a.S, st.asset}] = true
 		}
 		give := st.avail(a.S, grant)
 		st.take(a.S, give)
@@ -803,12 +813,18 @@ func (st *state) origin(typ string, c *gen.Call) (Val, *Err) {
 		}
 		return ParseVarText(typ, raw)
 	case "balance":
+		if st.reads != nil {
+			st.reads[[2]string{args[0].S, args[1].S}] = true
+		}
 		b := st.vis.Get(args[0].S, args[1].S)
 		if b.Sign() < 0 {
 			return Val{}, fail(ENegativeBalance, "%s", args[0].S)
 		}
 		return Val{T: TMonetary, S: args[1].S, N: new(big.Int).Set(b)}, nil
 	default: // overdraft
+		if st.reads != nil {
+			st.reads[[2]string{args[0].S, args[1].S}] = true
+		}
 		b := st.vis.Get(args[0].S, args[1].S)
 		return Val{T: TMonetary, S: args[1].S, N: max0(new(big.Int).Neg(b))}, nil
 	}
@@ -816,8 +832,8 @@ func (st *state) origin(typ string, c *gen.Call) (Val, *Err) {
 
 // Run executes the script on the inputs under the reference semantics.
 func Run(s *gen.Script, in Inputs) Result {
-	st := &state{in: in, env: map[string]Val{}, vis: in.Balances.Clone(), stmt: -1}
-	res := Result{TxMeta: map[string]Val{}, AcctMeta: map[string]map[string]string{}}
+	st := &state{in: in, env: map[string]Val{}, vis: in.Balances.Clone(), stmt: -1, reads: map[[2]string]bool{}}
+	res := Result{TxMeta: map[string]Val{}, AcctMeta: map[string]map[string]string{}, Reads: st.reads}
 	for _, d := range s.Vars {
 		var v Val
 		var err *Err
